@@ -462,7 +462,12 @@ func (a *asset) generateTimelineEntries(repID string, wt wrapTimes, atoMS int) s
 
 	// The offset is added in milliseconds, before the conversion to the media timescale, so that
 	// only one rounding (floor) is made. Otherwise a segment can be missed by up to one tick.
+	loopDur := uint64(rep.duration())
 	relStartTime := uint64((wt.startRelMS + atoMS) * rep.MediaTimescale / 1000)
+	for loopDur > 0 && relStartTime >= loopDur { // The offset may reach into the next loop
+		wt.startWraps++
+		relStartTime -= loopDur
+	}
 	relStartIdx := 0
 	if relStartTime < segs[0].EndTime {
 		wt.startWraps--
@@ -480,6 +485,10 @@ func (a *asset) generateTimelineEntries(repID string, wt wrapTimes, atoMS int) s
 	}
 
 	relNowTime := uint64((wt.nowRelMS + atoMS) * rep.MediaTimescale / 1000)
+	for loopDur > 0 && relNowTime >= loopDur { // The offset may reach into the next loop
+		wt.nowWraps++
+		relNowTime -= loopDur
+	}
 	relNowIdx := 0
 	if relNowTime < segs[0].EndTime {
 		wt.nowWraps--
